@@ -33,6 +33,8 @@ type vhIn struct {
 	fw, fh float64
 	listed []bool
 	sizes  map[string]graph.Size
+	sizes2 map[string]graph.Size // SZ 6: a second WithNodeSize map (odd nodes + node 0)
+	w2, h2  []float64
 	virt   bool
 }
 
@@ -68,7 +70,8 @@ var vhAlphabet = []string{"a", "V1", "V2", "V3", "NE0", "NE1", "NE2", "NE3", "",
 // from vhAlphabet (REN = 0), or one of three fixed renamings when the cube says so - concrete names
 // keep the whole run concrete where a symbolic name would make every comparison of two IDs a case
 // split: REN = 1 the same names in reverse order (reverses every lexicographic comparison),
-// REN = 2 helper-node names "V3","V2","V1","NE0",.. in descending order, REN = 3 the names rotated.
+// REN = 2 helper-node names "V3","V2","V1","NE0",.. in descending order, REN = 3 the names rotated,
+// REN = 4 / 5 names whose concatenations collide (powers of one word incl. the empty name; "1","12","2","11",..).
 func vhRename(in *vhIn) *vhIn {
 	out := &vhIn{}
 	*out = *in
@@ -81,6 +84,16 @@ func vhRename(in *vhIn) *vhIn {
 				out.ids = append(out.ids, vhID(in.n-1-i))
 			case 2:
 				out.ids = append(out.ids, helper[i%len(helper)])
+			case 4:
+				// powers of one word ("", x, xx, ...): every concatenation of two names commutes, the empty name is invisible
+				w := ""
+				for k := 0; k < i; k++ {
+					w += "x"
+				}
+				out.ids = append(out.ids, w)
+			case 5:
+				// names whose concatenations are ambiguous without a separator: "1"+"12" == "11"+"2"
+				out.ids = append(out.ids, []string{"1", "12", "2", "11", "21", "112", "121", "3"}[i%8])
 			default:
 				out.ids = append(out.ids, vhID((i+1)%in.n))
 			}
@@ -151,6 +164,19 @@ func vhOptions(in *vhIn, minLS float64) {
 			in.w[i], in.h[i] = float64(10+4*i), float64(8+2*(i%3))
 			in.listed[i] = true
 		}
+	case 6:
+		// two WithNodeSize options in one call: even nodes in the first map, odd nodes and node 0 in the second
+		in.w2 = make([]float64, in.n)
+		in.h2 = make([]float64, in.n)
+		for i := 0; i < in.n; i++ {
+			if i%2 == 0 {
+				in.w[i], in.h[i] = real("w", 0), real("h", 0)
+				in.listed[i] = true
+			}
+			if i%2 == 1 || i == 0 {
+				in.w2[i], in.h2[i] = real("w2", 0), real("h2", 0)
+			}
+		}
 	case 2, 3:
 		if in.sz == 3 {
 			in.fw, in.fh = real("fw", 0), real("fh", 0)
@@ -208,6 +234,15 @@ func (in *vhIn) buildOpts() {
 			}
 		}
 		in.opts = append(in.opts, WithNodeSize(in.sizes))
+		if in.sz == 6 {
+			in.sizes2 = map[string]graph.Size{}
+			for i := 0; i < in.n; i++ {
+				if i%2 == 1 || i == 0 {
+					in.sizes2[in.ids[i]] = graph.Size{W: in.w2[i], H: in.h2[i]}
+				}
+			}
+			in.opts = append(in.opts, WithNodeSize(in.sizes2))
+		}
 	}
 	in.opts = append(in.opts, WithNodeSpacing(in.ns), WithLayerSpacing(in.ls))
 	if in.virt {
